@@ -40,4 +40,9 @@ CONTROLS = [
          edits=[("cdd/shared/ast_utils.py", "class RewriteAtQuery(NodeTransformer):", "# sync_properties rewrites through this transformer\nclass RewriteAtQuery(NodeTransformer):")]),
     dict(name="BENIGN: loop variable `_arg` renamed throughout ast_utils.py", benign=True,
          edits=[("cdd/shared/ast_utils.py", "_arg", "one_arg", "rename")]),
+    dict(name="generic_visit replaces whatever node carries the searched location, literals included (the defect fixed by 92ed452)",
+         edits=[("cdd/shared/ast_utils.py", "            and not isinstance(node, (Constant, Str))\n", "")],
+         expect=r"generic_visit/never-replaces-a-literal"),
+    dict(name="BENIGN: the literal exclusion is spelled with Constant only", benign=True,
+         edits=[("cdd/shared/ast_utils.py", "            and not isinstance(node, (Constant, Str))\n", "            and not isinstance(node, Constant)\n")]),
 ]
